@@ -205,7 +205,7 @@ def make_items(shape, j=0, rot=0, cv=0, gtf=False):
         else:
             vs = [CONTENTS[cv](j, p, i) for i in range(n)]
             if gtf and cv == 2:
-                vs = [v.replace(";", ":").replace("=", "-") for v in vs]
+                vs = [v.replace(";", ":") for v in vs]           # GTF has no escaping: no ";" inside a value; "=" is an ordinary character there
         items.append((k, vs))
     return items
 
